@@ -414,6 +414,10 @@ def splice_fn(item, directives, log, probe=False):
     substs = []   # (start, end, replacement)
     order = 0
     resname = not any(d["op"] == "noresname" for d in directives)
+    # loops of a `loop_isolation(false)` function are verified in the function's own context: a failed
+    # entry probe masks later probes in the same query, and their invariants are asserted on entry
+    # anyway — so such functions carry the entry probe only.
+    nonisolated = any(d["op"] == "attr" and "loop_isolation(false)" in d["text"] for d in directives)
     bo = item.body_open
     if bo is None:
         raise AnchorLost(f"{item.name}: no body")
@@ -484,7 +488,7 @@ def splice_fn(item, directives, log, probe=False):
               if k > len(loops):
                   raise AnchorLost(f"{item.name}: loop {k} not found (has {len(loops)})")
               inserts.append((loops[k - 1][1], order, "\n" + d["text"] + "\n")); order += 1
-              if probe:
+              if probe and not nonisolated:
                   inserts.append((loops[k - 1][1] + 1, order, " " + PROBE)); order += 1
           elif op == "forname":
               if loops is None:
